@@ -22,6 +22,7 @@
 package poolincentives
 
 import (
+	"bufio"
 	"encoding/json"
 	"fmt"
 	"math/big"
@@ -937,18 +938,26 @@ func TestReplay(t *testing.T) {
 	if s := os.Getenv("VERIF_SHARD"); s != "" {
 		fmt.Sscanf(s, "%d/%d", &shard, &nshard)
 	}
-	bs, err := tracelog.ReadLines[behaviour](in)
+	// stream the behaviours: only the lines of this shard are decoded
+	f, err := os.Open(in)
 	if err != nil {
 		t.Fatal(err)
 	}
+	defer f.Close()
+	sc := bufio.NewScanner(f)
+	sc.Buffer(make([]byte, 1<<20), 1<<28)
 	mm := []mismatch{}
 	kinds := map[string]int{}
 	steps, done, accepted, rejected := 0, 0, 0, 0
 	shapes := map[string]int{}
 	var base *world
-	for bi, b := range bs {
-		if bi%nshard != shard {
+	for bi := 0; sc.Scan(); bi++ {
+		if bi%nshard != shard || len(sc.Bytes()) == 0 {
 			continue
+		}
+		var b behaviour
+		if err := json.Unmarshal(sc.Bytes(), &b); err != nil {
+			t.Fatalf("%s line %d: %v", in, bi+1, err)
 		}
 		if base == nil || done%2000 == 0 {
 			base = newWorld(t, []time.Duration{modelDur["d1"], modelDur["d2"]}, "week")
@@ -1127,6 +1136,9 @@ func TestReplay(t *testing.T) {
 		if len(mm) >= 20 {
 			break
 		}
+	}
+	if err := sc.Err(); err != nil {
+		t.Fatal(err)
 	}
 	res := map[string]any{"behaviours": done, "steps": steps, "mismatches": mm, "kinds": kinds,
 		"proposals_accepted": accepted, "proposals_rejected": rejected, "rejected_shapes": shapes}
